@@ -343,20 +343,145 @@ func fieldOfRecv(fn *ssa.Function, v ssa.Value) (string, bool) {
 }
 
 func ruleBuffer(ctx *Ctx, r *Report, tname string, fn *ssa.Function, isWrite bool) {
+	ruleBufferIn(ctx, r, tname, fn, isWrite, false)
+}
+
+// ruleBufferIn: held = the caller holds the buffer's mutex around the call of fn (fn is the
+// body of the critical section, split off into a helper of the same receiver).
+func ruleBufferIn(ctx *Ctx, r *Report, tname string, fn *ssa.Function, isWrite bool, held bool) {
 	mname := "Close"
 	if isWrite {
 		mname = "Write"
 	}
 	key := tname + "." + mname
+	if !held {
+		// the critical section's body in a helper: `a.lock.Lock(); a.add(in); a.lock.Unlock()`
+		hasSend := false
+		var helper *ssa.Function
+		var hcall *ssa.Call
+		nHelpers := 0
+		allInstrs(fn, func(_ *ssa.BasicBlock, ins ssa.Instruction) {
+			switch x := ins.(type) {
+			case *ssa.Send:
+				hasSend = true
+			case *ssa.Call:
+				if g := x.Call.StaticCallee(); g != nil && inModule(g) && g.Signature.Recv() != nil && len(g.Blocks) > 0 && len(x.Call.Args) > 0 && len(fn.Params) > 0 && x.Call.Args[0] == ssa.Value(fn.Params[0]) {
+					sends := false
+					allInstrs(g, func(_ *ssa.BasicBlock, i2 ssa.Instruction) {
+						if _, ok := i2.(*ssa.Send); ok {
+							sends = true
+						}
+					})
+					if sends {
+						helper, hcall = g, x
+						nHelpers++
+					}
+				}
+			}
+		})
+		touchesBuffer := false
+		allInstrs(fn, func(_ *ssa.BasicBlock, ins ssa.Instruction) {
+			if ld, ok := ins.(*ssa.UnOp); ok && ld.Op == token.MUL {
+				if f, ok := fieldOfRecv(fn, ld.X); ok && f != "" {
+					if _, isSl := ld.Type().Underlying().(*types.Slice); isSl {
+						touchesBuffer = true
+					}
+				}
+			}
+			if st, ok := ins.(*ssa.Store); ok {
+				if _, ok := fieldOfRecv(fn, st.Addr); ok {
+					touchesBuffer = true
+				}
+			}
+		})
+		if !hasSend && nHelpers == 1 && !touchesBuffer {
+			// lock discipline of the caller: the helper runs between Lock and Unlock, nothing of
+			// the buffer is touched outside
+			var locks []ssa.Instruction
+			deferred := false
+			touched := ""
+			allInstrs(fn, func(_ *ssa.BasicBlock, ins ssa.Instruction) {
+				if _, ok := isMutexCall(ins, "Lock"); ok {
+					locks = append(locks, ins)
+				}
+				if _, ok := isMutexCall(ins, "Unlock"); ok {
+					if _, isD := ins.(*ssa.Defer); isD {
+						deferred = true
+					}
+				}
+				if ld, ok := ins.(*ssa.UnOp); ok && ld.Op == token.MUL {
+					if f, ok := fieldOfRecv(fn, ld.X); ok && f != "" {
+						if _, isSl := ld.Type().Underlying().(*types.Slice); isSl {
+							touched += " buffer read in the caller at " + ctx.pos(ld.Pos()) + ";"
+						}
+					}
+				}
+				if st, ok := ins.(*ssa.Store); ok {
+					if _, ok := fieldOfRecv(fn, st.Addr); ok {
+						touched += " buffer written in the caller at " + ctx.pos(st.Pos()) + ";"
+					}
+				}
+			})
+			lockOK := len(locks) == 1 && touched == "" && precedes(locks[0], hcall)
+			if lockOK && !deferred {
+				// no Unlock between the Lock and the helper call, and one after it on every path
+				lockOK = everyPathHits(hcall, func(x ssa.Instruction) bool { _, ok := isMutexCall(x, "Unlock"); return ok })
+				seenUnlock := false
+				allInstrs(fn, func(_ *ssa.BasicBlock, ins ssa.Instruction) {
+					if _, ok := isMutexCall(ins, "Unlock"); ok && precedes(ins, hcall) {
+						seenUnlock = true
+					}
+				})
+				lockOK = lockOK && !seenUnlock
+			}
+			r.check("B1", key+"|buffer-accessed-and-sent-under-its-mutex", fn.Pos(), lockOK, "the helper "+helper.Name()+" that appends, tests, sends and re-binds is called inside the critical section;"+touched)
+			ruleBufferIn(ctx, r, tname, helper, isWrite, true)
+			return
+		}
+	}
 	// the buffer field: the slice field of the receiver that is sent
 	var sends []*ssa.Send
-	var accesses []ssa.Instruction // loads/stores of slice/chan fields of the receiver
+	sendIn := map[*ssa.Send]*ssa.Function{}  // the function a send lies in (fn, or a helper of the receiver)
+	sendAt := map[*ssa.Send]ssa.Instruction{} // the instruction of fn that performs it (the send, or the helper call)
+	var accesses []ssa.Instruction           // loads/stores of slice/chan fields of the receiver
+	if !held {
+		// a flush helper of the same receiver holding one send and no locking of its own, called
+		// from inside the critical section, counts as a send at its call site
+		allInstrs(fn, func(_ *ssa.BasicBlock, ins ssa.Instruction) {
+			c, ok := ins.(*ssa.Call)
+			if !ok {
+				return
+			}
+			g := c.Call.StaticCallee()
+			if g == nil || !inModule(g) || g.Signature.Recv() == nil || len(g.Blocks) == 0 || len(c.Call.Args) == 0 || len(fn.Params) == 0 || c.Call.Args[0] != ssa.Value(fn.Params[0]) {
+				return
+			}
+			var hs []*ssa.Send
+			locksInside := false
+			allInstrs(g, func(_ *ssa.BasicBlock, i2 ssa.Instruction) {
+				if sd, ok := i2.(*ssa.Send); ok {
+					hs = append(hs, sd)
+				}
+				if _, ok := isMutexCall(i2, "Lock"); ok {
+					locksInside = true
+				}
+			})
+			if len(hs) == 1 && !locksInside {
+				sends = append(sends, hs[0])
+				sendIn[hs[0]] = g
+				sendAt[hs[0]] = c
+				accesses = append(accesses, c)
+			}
+		})
+	}
 	var locks, unlocks []ssa.Instruction
 	deferredUnlock := false
 	allInstrs(fn, func(b *ssa.BasicBlock, ins ssa.Instruction) {
 		switch x := ins.(type) {
 		case *ssa.Send:
 			sends = append(sends, x)
+			sendIn[x] = fn
+			sendAt[x] = x
 			accesses = append(accesses, x)
 		case *ssa.UnOp:
 			if x.Op == token.MUL {
@@ -383,9 +508,12 @@ func ruleBuffer(ctx *Ctx, r *Report, tname string, fn *ssa.Function, isWrite boo
 		}
 	})
 	// B1 lock discipline
-	lockOK := len(locks) >= 1
+	lockOK := len(locks) >= 1 || held
 	detail := ""
 	for _, a := range accesses {
+		if held {
+			break
+		}
 		dom := false
 		for _, l := range locks {
 			if precedes(l, a) {
@@ -433,7 +561,9 @@ func ruleBuffer(ctx *Ctx, r *Report, tname string, fn *ssa.Function, isWrite boo
 			}
 		}
 	}
-	r.check("B1", key+"|buffer-accessed-and-sent-under-its-mutex", fn.Pos(), lockOK, "append, threshold test, send and re-bind form one critical section (several producers may share a buffer);"+detail)
+	if !held {
+		r.check("B1", key+"|buffer-accessed-and-sent-under-its-mutex", fn.Pos(), lockOK, "append, threshold test, send and re-bind form one critical section (several producers may share a buffer);"+detail)
+	}
 
 	// B1 what is sent, and re-binding
 	if len(sends) == 0 {
@@ -445,8 +575,9 @@ func ruleBuffer(ctx *Ctx, r *Report, tname string, fn *ssa.Function, isWrite boo
 		ld, _ := s.X.(*ssa.UnOp)
 		fname := ""
 		okSent := false
+		sfn := sendIn[s]
 		if ld != nil && ld.Op == token.MUL {
-			fname, okSent = fieldOfRecv(fn, ld.X)
+			fname, okSent = fieldOfRecv(sfn, ld.X)
 		}
 		r.check("B1", skey+"|sends-the-owned-buffer", s.Pos(), okSent, "the value sent must be the receiver's buffer field (sending the caller's slice lets batches overtake buffered items and aliases caller memory); sent: "+s.X.String())
 		if !okSent {
@@ -457,10 +588,13 @@ func ruleBuffer(ctx *Ctx, r *Report, tname string, fn *ssa.Function, isWrite boo
 		// leave a fresh slice in the field, and must not store anything derived from the old
 		// buffer in between (buf[:0] aliases what the consumer now owns; an append after the
 		// load would be lost).
-		rebound := reboundFresh(fn, ld, s, fname)
+		rebound := reboundFresh(sfn, ld, s, fname)
 		r.check("B1", skey+"|buffer-rebound-to-fresh-slice-after-send", s.Pos(), rebound, "after the send the consumer owns the slice: the field must become a new make()/nil before the lock is released (buf[:0] would alias it)")
 		// B2 guard
-		guards := branchGuards(s.Block())
+		guards := branchGuards(sendAt[s].Block())
+		if sfn != fn {
+			guards = append(guards, branchGuards(s.Block())...)
+		}
 		okG := len(guards) == 1
 		gdesc := ""
 		if okG {
